@@ -143,6 +143,12 @@ Theorem C04_ext_not_replaced_refuted : all_legal (o_world (run_tls fixes_keep_ex
 Proof. exact ext_not_replaced_refuted. Qed.
 Print Assumptions C04_ext_not_replaced_refuted.
 
+(* T1: the end-of-data reply is read with ReadResponse (all lines), as every cmd() does: in the model a reply
+   - one line or many - is ONE element of the reply queue (C04_legal's all_attributed) *)
+Theorem C04_source_eod_reads_full_response : VerifGen.Gen.eod_reads_full_response = true.
+Proof. exact gen_eod_reads_full_response. Qed.
+Print Assumptions C04_source_eod_reads_full_response.
+
 Theorem C04_source_starttls_says_ehlo : VerifGen.Gen.starttls_says_ehlo = true.
 Proof. exact gen_starttls_says_ehlo. Qed.
 Print Assumptions C04_source_starttls_says_ehlo.
